@@ -212,15 +212,34 @@ def collect(res, job, out, prop, expect_done=True):
     res.jobs_run += 1
 
 
-def run_jobs(res, jobs, prop, args_fn, timeout=1500, env_fn=None):
+def run_jobs(res, jobs, prop, args_fn, timeout=1500, env_fn=None, on_build_fail=None, retry_extra=None):
     """Build and run jobs in parallel."""
     t0 = time.time()
     build.build_all(jobs)
+    if retry_extra:
+        # rebuild failed jobs once with extra defines (used where a known header defect would otherwise hide an implementation)
+        redo = []
+        for idx, j in enumerate(jobs):
+            if not j.build_ok:
+                j2 = build.Job(j.src, j.cfg, j.compiler, j.std, j.variant, j.part, extra=j.extra + list(retry_extra), libs=j.libs,
+                               extra_srcs=j.extra_srcs, incdirs=j.incdirs, cflags_override=j.cflags_override)
+                redo.append((idx, j2))
+        build.build_all([j2 for _, j2 in redo])
+        for idx, j2 in redo:
+            if j2.build_ok:
+                res.notes.append((j2.info(), {'ev': 'note', 'key': 'rebuilt-with', 'val': ' '.join(retry_extra)}))
+                jobs[idx] = j2
     nb = sum(1 for j in jobs if not j.cached)
     log('[%s] built %d jobs (%d fresh) in %.1fs' % (prop, len(jobs), nb, time.time() - t0))
     ok_jobs = []
     for j in jobs:
         if not j.build_ok:
+            recs = on_build_fail(j) if on_build_fail else None
+            if recs:
+                for r in recs:
+                    r.update(j.info())
+                    res.records.append(r)
+                continue
             res.harness_failures.append('build failed: %s\n%s' % (j.label, j.build_log[-1500:]))
         elif not configs.runnable(j.cfg):
             res.skipped.append(j.label)
